@@ -39,20 +39,20 @@ Proof.
 Qed.
 
 (* the members a write program may emit (over all its branches) *)
-Fixpoint wfields (p : prog) : list Z :=
+Fixpoint emit_fields (p : prog) : list Z :=
   match p with
-  | PWrite f k => f :: wfields k
-  | PWriteBytes f _ k => f :: wfields k
-  | PZero _ k | PAssign _ _ k | PDecl _ _ _ k | PSet _ _ k => wfields k
-  | PIf _ a b => wfields a ++ wfields b
+  | PWrite f k => f :: emit_fields k
+  | PWriteBytes f _ k => f :: emit_fields k
+  | PZero _ k | PAssign _ _ k | PDecl _ _ _ k | PSet _ _ k => emit_fields k
+  | PIf _ a b => emit_fields a ++ emit_fields b
   | _ => []
   end.
 
-Theorem run_w_defined : forall p s l s' out, (forall f, In f (wfields p) -> defined_val (s f)) ->
+Theorem run_w_defined : forall p s l s' out, (forall f, In f (emit_fields p) -> defined_val (s f)) ->
   run_w cs call cap p s l = Ok (s', out) -> Forall byte out.
 Proof.
   induction p as [| e | | | f k IH | f k IH | f e k IH | f e k IH | f e k IH | e k IH | e k IH | f e k IH | x t e k IH | x e k IH | k IH | c a IHa b IHb];
-    intros s l s' out Hd H; cbn [run_w] in H; cbn [wfields] in Hd; try discriminate.
+    intros s l s' out Hd H; cbn [run_w] in H; cbn [emit_fields] in Hd; try discriminate.
   - inversion H; subst. constructor.
   - destruct (find_field cs f) as [x|]; [|discriminate].
     destruct (field_bytes x (s f)) as [b|] eqn:Eb; cbn [bind] in H; [|discriminate].
@@ -62,7 +62,7 @@ Proof.
     + eapply IH; [|exact Ek]. intros g Hg. apply Hd. right. exact Hg.
   - destruct (eval_as cs call I64 s l e) as [n|]; cbn [bind] in H; [|discriminate].
     pose proof (Hd f (or_introl eq_refl)) as Hf. destruct (s f) as [z|b|] eqn:Ef; try discriminate.
-    assert (Hk : forall g, In g (wfields k) -> defined_val (s g)) by (intros g Hg; apply Hd; right; exact Hg).
+    assert (Hk : forall g, In g (emit_fields k) -> defined_val (s g)) by (intros g Hg; apply Hd; right; exact Hg).
     destruct (n <=? 0); [eapply IH; eauto|]. destruct (zlen b <? n); [discriminate|].
     destruct (run_w cs call cap k s l) as [[s1 o1]|] eqn:Ek; cbn [bind] in H; [|discriminate].
     inversion H; subst. cbn [fst snd]. apply Forall_app. split; [apply ztake_bytes; exact Hf|eapply IH; eauto].
@@ -93,6 +93,6 @@ Proof.
 Qed.
 
 (* every member the class's write program may emit holds a determined value => only real bytes come out *)
-Theorem enc_defined cs cap c s s' out : (forall f, In f (wfields (prog_of cs c M_write)) -> defined_val (s f)) ->
+Theorem enc_defined cs cap c s s' out : (forall f, In f (emit_fields (prog_of cs c M_write)) -> defined_val (s f)) ->
   enc cs cap c s = Ok (s', out) -> Forall byte out.
 Proof. unfold enc. apply run_w_defined. Qed.
